@@ -452,4 +452,92 @@ theorem cleanRun_false (ops : List Op) (src : List (Ev Val)) : Ref.CleanRun fals
   | nil => exact clean_false src
   | cons op ops ih => exact ⟨clean_false src, ih _⟩
 
+/-! ## vocabulary and helpers for C12 -/
+
+/-- is this source outcome an element that the operator (in state `s`) skips? -/
+def skipped (op : Op) (s : Nat) : Ev Val → Bool
+  | .ok r => (match (Ref.semCall op s r).1 with | .error e => e.ignorable | .ok _ => false)
+  | .error _ => false
+
+/-- an error can only be the last event -/
+def ErrLast (evs : List (Ev Val)) : Prop :=
+  ∀ pre e post, evs = pre ++ .error e :: post → post = []
+
+theorem errLast_nil : ErrLast [] := by
+  intro pre e post h; cases pre <;> simp at h
+
+theorem errLast_single (e : Err) : ErrLast [.error e] := by
+  intro pre e' post h
+  cases pre with
+  | nil => simpa using (List.cons.inj h).2.symm
+  | cons p ps => cases ps <;> simp at h
+
+theorem errLast_cons_ok (x : Val) (evs : List (Ev Val)) (h : ErrLast evs) : ErrLast (.ok x :: evs) := by
+  intro pre e post heq
+  cases pre with
+  | nil => simp at heq
+  | cons p ps => exact h ps e post (List.cons.inj heq).2
+
+theorem opEvents_false_errLast (op : Op) (s : Nat) (src : List (Ev Val)) :
+    ErrLast (Ref.opEvents false op s src) := by
+  induction src generalizing s with
+  | nil => simpa [Ref.opEvents] using errLast_nil
+  | cons ev rest ih =>
+    cases ev with
+    | error e => simpa [Ref.opEvents, terminal] using errLast_single e
+    | ok r =>
+      rcases hs : Ref.semCall op s r with ⟨res, s'⟩
+      cases res with
+      | error e => simpa [Ref.opEvents, hs, terminal] using errLast_single e
+      | ok v =>
+        cases hw : Ref.semWrite op r v with
+        | error e => simpa [Ref.opEvents, hs, hw, terminal] using errLast_single e
+        | ok o =>
+          cases o with
+          | none => simpa [Ref.opEvents, hs, hw] using ih s'
+          | some x => simpa [Ref.opEvents, hs, hw] using errLast_cons_ok x _ (ih s')
+
+theorem cutTerminal_false_errLast (src : List (Ev Val)) : ErrLast (cutTerminal false src) := by
+  induction src with
+  | nil => simpa [cutTerminal] using errLast_nil
+  | cons ev rest ih =>
+    cases ev with
+    | error e => simpa [cutTerminal, terminal] using errLast_single e
+    | ok x => simpa [cutTerminal] using errLast_cons_ok x _ ih
+
+theorem cutTerminal_errLast_id (evs : List (Ev Val)) (h : ErrLast evs) : cutTerminal false evs = evs := by
+  induction evs with
+  | nil => simp [cutTerminal]
+  | cons ev rest ih =>
+    cases ev with
+    | error e =>
+      have := h [] e rest rfl
+      simp [cutTerminal, terminal, this]
+    | ok x =>
+      have hr : ErrLast rest := fun pre e post heq => h (.ok x :: pre) e post (by simp [heq])
+      simp [cutTerminal, ih hr]
+
+theorem chainEvents_false_errLast (ops : List Op) (src : List (Ev Val)) :
+    ErrLast (Ref.chainEvents false ops src) := by
+  induction ops generalizing src with
+  | nil => exact cutTerminal_false_errLast src
+  | cons op ops ih => exact ih _
+
+theorem observe_errLast (evs : List (Ev Val)) (h : ErrLast evs) :
+    evs = (observe evs).1.map .ok ++ (match (observe evs).2 with | some e => [.error e] | none => []) := by
+  induction evs with
+  | nil => simp [observe]
+  | cons ev rest ih =>
+    cases ev with
+    | error e =>
+      have := h [] e rest rfl
+      simp [observe, this]
+    | ok x =>
+      have hr : ErrLast rest := fun pre e post heq => h (.ok x :: pre) e post (by simp [heq])
+      have := ih hr
+      simp only [observe]
+      rcases ho : observe rest with ⟨xs, eo⟩
+      rw [ho] at this
+      simp [this]
+
 end MlModel.Pipe
